@@ -1,6 +1,6 @@
 HOOK_COMMITS = []
 ENGINES = [
-    {"name": "explore", "path": "vf/core/explore.py", "serves_properties": ["C03", "C08", "C09", "C11", "C13", "C17"], "kind_free_text": "explicit-state BFS with state merging over the real objects; bounded product enumeration; deviation-bounded stateless DFS"},
+    {"name": "explore", "path": "vf/core/explore.py", "serves_properties": ["C01", "C03", "C08", "C09", "C11", "C13", "C15", "C17"], "kind_free_text": "explicit-state BFS with state merging over the real objects; bounded product enumeration; deviation-bounded stateless DFS"},
     {"name": "vloop", "path": "vf/core/vloop.py", "serves_properties": ["C10"], "kind_free_text": "virtual asyncio event loop stepped by hand: ready-queue steps, environment events and timers are explicit choices explored exhaustively by explore.dfs"},
 ]
 NOT_APPLICABLE = {}
@@ -46,5 +46,17 @@ CHECKS = {
         technique="exhaustive access-sequence enumeration against a caching reference model (WSGI, ASGI) plus stateless exploration of every task/message interleaving on a virtual asyncio loop",
         text="Sequential: every access sequence up to depth 3 (thorough 4) over {body, stream fully, stream first chunk, json, form, close} x 5 body kinds x all splits into <=3 reads/messages incl. empty messages and (ASGI) disconnect positions, step-wise against a reference model of the documented caching rules, with identity of repeated results and receive accounting. Concurrent (ASGI): 1225 two-task programs (thorough adds three-task programs) x message scripts; every interleaving of task steps and in-order message deliveries is executed on the real Request under a virtual event loop; each result must be complete or a documented error, no task may be left stuck, no receive after the final message.",
         note="virtual loop models the asyncio contract (FIFO ready queue, I/O completions at arbitrary points); is_disconnected() and cancellation outside the alphabet; bodies are five fixed small bodies",
+    ),
+    "C01": dict(
+        engine="explore", level="model_checking", design_ref="DESIGN.md §3 C01",
+        technique="explicit-state search with state merging over the real event-level decoder covering every partition of each body; exhaustive chunking families on the four helper/accessor paths",
+        text="For every body of a corpus (6 boundaries x 20 hostile contents, multi-part forms with awkward names, every content string up to length 3 (thorough 5) over the delimiter's own alphabet) a BFS over (position, decoder state, buffer, normalised output) with transitions 'feed the next k bytes, k = 0..rest' runs the real MultipartDecoder on every partition of the body into chunks (2^(n-1) of them, plus empty chunks); the output must stay a prefix of the encoded form and equal it at end of input. The stream helpers and both Request.form accessors are run under whole / byte-wise / every fixed size / every 1-cut (with empty chunk) / every 2-cut chunkings of 5 forms with multi-byte text.",
+        note="bodies come from a reference encoder (CRLF framing); state merge relies on next_event depending only on (state, buffer, complete); finite corpus",
+    ),
+    "C15": dict(
+        engine="explore", level="model_checking", design_ref="DESIGN.md §3 C15",
+        technique="the C01 all-partitions decoder search with a buffer-bound invariant on every transition; exhaustive limit settings around the exact totals x chunkings; helper-level observation from the chunk iterator",
+        text="Limits: 14 forms x max_form_parts in {n-1,n,n+1} x max_form_memory_size in {None,total-1,total,total+1} x {whole, byte-wise, every 1-cut} x {sync, async}: 413 iff a limit is exceeded. Buffering: on every transition of the all-partitions search len(buffer) <= chunk + len(CRLF--boundary) + 4 while a part body is read; at helper level every chunk size 1..64 on parts with a leading CR/LF and a 600-byte run, reading the decoder buffer from the helper's frame and requiring a 100-byte field limit to trip within the bound; one scaled instance (256 KiB, thorough 1 MiB).",
+        note="helper-level observation depends on the helper's local variable name `parser` (skipped and counted if absent); slack constant 4",
     ),
 }
